@@ -127,6 +127,9 @@ def run_case(acc: Acc, engine, usages, targets, kinds, removed, activation=("Gen
     errors: list[str] = []
     ready = engine.is_ready(errors)
     acc.transitions += 1
+    errors2: list[str] = []
+    if engine.is_ready(errors2) != ready or errors2 != errors:
+        acc.violate("not-repeatable", {}, case, errors, errors2, "is_ready() gives a different answer the second time")
     need = needed(usages, targets, kinds, removed)
     acc.case((usages, targets, kinds, tuple(sorted(removed)), activation), nontrivial=bool(removed))
     if ready != (not errors):
